@@ -184,11 +184,15 @@ def r4_layout(ck, F):
                 if e.k == "discr" and nn and e.a[0].strip().x.get("site") == nn[0][0] and "None" in labels:
                     okn = diverges(nb, labels["None"]) and nb.dominates(labels["Some"], s.bb)
         ck.ob(R, "null-checked-before-use", ok and okn, "data = NonNull::new(alloc(..)) with a diverging else-branch, before the struct is built", nb)
-        # size rounding: div_ceil(size, 16) * 16
-        c_ = checked(size_e)
+        # C17-R9: the size handed to alloc can never wrap (also without overflow checks): every arithmetic
+        # node of its expression is constant, overflow-free by construction, or a checked_* call whose
+        # None arm diverges
+        bad = _wrapping_arith(nb, size_e)
         sz = F.adts[A("entry_bound")].get("size")
-        okr = bool(c_ and c_[0] == "Mul" and const_val(c_[2]) == sz and is_call(c_[1], "::div_ceil") and is_arg(c_[1].strip().a[0], "size") and const_val(c_[1].strip().a[1]) == sz)
-        ck.ob("C17-R9", "size-rounded-up-to-bound-multiple", okr, f"allocation size = {size_e.show()} (size rounded up to a multiple of size_of::<EntryBound>() = {sz}); if it wraps in release the buffer is small and knows it (same value in len)", nb)
+        rounded = [x for x in size_e.walk() if x.k == "call" and x.x["path"].rsplit("::", 1)[-1] in ("checked_next_multiple_of", "next_multiple_of", "div_ceil")]
+        okm = bool(rounded) and any(const_val(x.a[1]) == sz and is_arg(x.a[0], "size") for x in rounded)
+        ck.ob("C17-R9", "alloc-size-cannot-wrap", not bad, f"allocation size = {size_e.show()[:90]}: no arithmetic in it can wrap" + (f" — may wrap when overflow checks are off: {bad} (a wrapped size of 0 makes `alloc` undefined behaviour)" if bad else ""), nb, al[0][0])
+        ck.ob("C17-R9", "size-rounded-up-to-bound-multiple", okm, f"the requested size is rounded up to a multiple of size_of::<EntryBound>() = {sz}", nb)
     dr = F.body("<sorter::EntryBoundAlignedBuffer as std::ops::Drop>::drop")
     de = calls(dr, "alloc::dealloc")
     dl = calls(dr, "Layout::from_size_align")
@@ -208,6 +212,48 @@ def r4_layout(ck, F):
     ck.ob(R, "fields-private", not pubs and not F.adts[A("aligned_buffer")]["pub"], "data/len are private to sorter.rs", config=F.config, nontrivial=False)
 
 
+CHECKED_OK = {"checked_next_multiple_of", "checked_mul", "checked_add", "checked_sub", "checked_shl", "checked_pow"}
+NO_OVERFLOW_CALLS = {"div_ceil", "min", "max", "len", "size_of", "align_of", "get", "isqrt", "saturating_sub", "saturating_add", "saturating_mul"}
+
+
+def _wrapping_arith(b, e):
+    """arithmetic nodes in expression e that can wrap in a build without overflow checks"""
+    bad = []
+    for x in e.walk():
+        if x.k == "bin":
+            op = x.x["op"].replace("WithOverflow", "")
+            if op in ("Add", "Mul", "Shl", "Sub"):
+                from .fmt import fold
+                if fold(x) is not None:
+                    continue
+                # len-of-a-live-allocation * small constant cannot exceed usize::MAX (len <= isize::MAX)
+                ks = [fold(y) for y in x.a]
+                other = [y for y in x.a if fold(y) is None]
+                if op == "Mul" and any(k is not None and 0 <= k <= 2 for k in ks) and len(other) == 1 and is_call(other[0], "::len"):
+                    continue
+                bad.append(f"{op} in `{x.show()[:60]}`")
+        elif x.k == "call":
+            last = x.x["path"].rsplit("::", 1)[-1]
+            if last in ("next_multiple_of", "pow", "wrapping_mul", "wrapping_add", "unchecked_mul", "unchecked_add", "next_power_of_two"):
+                bad.append(f"{last}()")
+            elif last in CHECKED_OK:
+                # the None arm must diverge
+                site = x.x.get("site")
+                okd = False
+                for bb in sorted(b.normal_blocks()):
+                    if b.term(bb)["t"] == "switch":
+                        ex, enum, labels, oth = switch_on(b, bb)
+                        if ex.k == "discr" and ex.a[0].strip().x.get("site") == site and "None" in labels:
+                            okd = diverges(b, labels["None"])
+                ok_unwrap = False
+                for y in e.walk():
+                    if y.k == "call" and y.x["path"].rsplit("::", 1)[-1] in ("unwrap", "expect") and y.a and y.a[0].strip().x.get("site") == site:
+                        ok_unwrap = True
+                if not (okd or ok_unwrap):
+                    bad.append(f"{last}() whose None case does not diverge")
+    return bad
+
+
 def r5_nonzero(ck, F):
     R = "C17-R5"
     callers = {}
@@ -215,6 +261,9 @@ def r5_nonzero(ck, F):
         for s, c, t in calls(b, A("aligned_new")):
             callers[b.path] = b.arg_exprs(s)[0]
     ck.ob(R, "allocation-callers", sorted(callers) == sorted([A("entries_with_cap"), A("entries_realloc")]), f"EntryBoundAlignedBuffer::new is called from {sorted(callers)}", config=F.config)
+    for p, e in sorted(callers.items()):
+        bad = _wrapping_arith(F.body(p), e)
+        ck.ob("C17-R9", f"requested-size-cannot-wrap/{p.split('::')[-1]}", not bad, f"{p.split('::')[-1]} requests {e.show()[:70]} bytes" + (f" — may wrap: {bad}" if bad else " (no wrapping arithmetic)"), F.body(p))
     r2_threshold(ck, F, R)   # capacity = INITIAL (>0) or dump_threshold >= MIN_SORTER_MEMORY (>0)
     r3_grow(ck, F, R)        # or twice the length of an existing buffer
     wc = sorted({b.path for b in F.user_bodies() for s, c, t in calls(b, A("entries_with_cap"))})
